@@ -202,6 +202,8 @@ def rules(ck, P):
 
     pm_cover_rules(ck, P)
     comp.pyramid_union_rule(ck, P, "R-COVER-OPS")
+    from . import boxalg
+    boxalg.union_rule(ck, P, "R-UNION")
 
     # ---------------- mbtiles
     mb = [b for b in P.bodies if b["q"].endswith("mbtiles::reader::MBTilesReader::get_bbox_pyramid")]
